@@ -552,6 +552,35 @@ func (r *routeComp) Generate(rng *rand.Rand, n int, emit func(Case)) {
 		ops = append(ops, dirsOp(arity, tuples))
 		emit(Case{Ops: ops, Tag: fmt.Sprintf("exhaustive-arity%d", arity)})
 	}
+	// length prefixes that wrap: pairs of tuples whose encodings coincide if a key's length were written in one byte
+	// (or in two): the second tuple is the first one re-read with the long value's length taken modulo 256 / 65536
+	for _, wrap := range []int{256, 65536} {
+		for k := 1; k <= 3; k++ {
+			m := 1 + rng.Intn(40)
+			a2 := strings.Repeat("z", m)
+			lenByte := func(v int) string {
+				if wrap == 256 {
+					return string([]byte{byte(v)})
+				}
+				return string([]byte{byte(v), byte(v >> 8)}) // little-endian guess; the big-endian variant follows
+			}
+			for _, order := range []int{0, 1} {
+				lb := lenByte(m)
+				if wrap == 65536 && order == 1 {
+					lb = string([]byte{byte(m >> 8), byte(m)})
+				}
+				a1 := strings.Repeat("p", k) + lb + strings.Repeat("q", wrap-len(lb))
+				b1 := a1[:k]
+				b2 := a1[k+len(lb):] + lb + a2
+				toks := []string{"2", "L" + hx([]byte("t.")), "V0", "L" + hx([]byte(".")), "V1"}
+				ops := []Op{{Name: "route new", Strs: toks},
+					recOp("route metric", []string{a1, a2}), recOp("route metric", []string{b1, b2}),
+					recOp("route rec", []string{a1, a2}), recOp("route rec", []string{b1, b2}),
+					recOp("route metric", []string{a1, a2})}
+				emit(Case{Ops: ops, Tag: "length-wrap"})
+			}
+		}
+	}
 	for i := 0; i < n/40; i++ {
 		arity := 1 + rng.Intn(3)
 		ops := []Op{{Name: "route new", Strs: append([]string{strconv.Itoa(arity)}, randParts(rng, arity)...)}}
